@@ -53,6 +53,7 @@ def run(ctx):
     stream_reset(ctx, "C05.9")
     unget_position(ctx)
     delivery_rules(ctx)
+    reader_never_empty_midstream(ctx)
     stream_error_positions(ctx)
     from .c06 import bom_read_and_seek
     bom_read_and_seek(ctx, "C05.13", "C05.14")
@@ -261,6 +262,54 @@ def chunk_invariants(ctx):
     ok = len(pre) == 1 and len(back) == 1 and cfg.dominated_by(pre[0], at0) and cfg.dominated_by(back[0], not0)
     r.idiom("C05.5", ok, "unget-arms", ug.where, "unget() does not prepend at a chunk start and step back otherwise",
             wrong=[(len(pre) == 1 and len(back) == 1 and not ok, None)])
+
+
+def reader_never_empty_midstream(ctx):
+    """C05.17: readChunk takes an empty read for the end of the input (C05.11).  A text reader put over a byte source must
+    honour that: when a raw read delivered only the first bytes of a multi-byte character the decoder has nothing to return
+    yet -- the reader reads on instead of returning ''.  DecodingReader.read is run from its source (sa/classeval.py) on byte
+    sources that split a character across reads, with the standard library's incremental UTF-8 decoder as the model."""
+    import codecs
+    from ..classeval import ClassEval, Record
+    r = ctx.r
+    r.rule("C05.17", "the decoding reader returns '' only at the end of the input", floor=3)
+    cls = next((c for c in ctx.repo.module(REL).all_classes if "read" in c.methods and any(
+        isinstance(x, ast.Call) and isinstance(x.func, ast.Attribute) and x.func.attr == "decode" and norm(x.func.value).startswith("self.")
+        for x in ast.walk(c.methods["read"].node))), None)
+    if cls is None:
+        r.idiom("C05.17", False, "reader-class", REL, "no reader class that decodes what it reads was found")
+        return
+    f = cls.methods["read"]
+    for label, pieces in (("split-two-byte", [b"a\xc3", b"\xa9b", b""]), ("lone-lead-byte-read", [b"\xc3", b"\xa9", b"x", b""]),
+                          ("three-byte-in-three-reads", [b"\xe2", b"\x82", b"\xac", b""]), ("plain", [b"ab", b""])):
+        src = list(pieces)
+        dec = codecs.getincrementaldecoder("utf-8")("replace")
+        stream = Record(read=lambda size=-1, src=src: src.pop(0) if src else b"")
+        decoder = Record(decode=lambda data, final=False, dec=dec: dec.decode(data, final))
+        attrs = {}
+        # the attribute names are the class's own: whatever __init__ stores the stream / decoder under
+        init = cls.methods.get("__init__")
+        names = [a.targets[0].attr for a in (ast.walk(init.node) if init else []) if isinstance(a, ast.Assign) and len(a.targets) == 1 and
+                 isinstance(a.targets[0], ast.Attribute) and norm(a.targets[0].value) == "self"]
+        for nm in names:
+            attrs[nm] = decoder if "decod" in nm.lower() else stream
+        outs = []
+        key = "reader::%s" % label
+        try:
+            for _ in range(len(pieces) + 1):
+                evl = ClassEval(ctx.ce, ctx.repo.module(REL), cls, attrs, repo=ctx.repo)
+                outs.append(evl.call("read", [4]))
+                if outs[-1] == "":
+                    break           # the consumer stops at the first empty read
+        except AnalysisError as e:
+            r.idiom("C05.17", False, key, f.where, "%s.read is not evaluable (%s)" % (cls.name, str(e)[:80]))
+            continue
+        text = "".join(o for o in outs if isinstance(o, str))
+        want = b"".join(pieces).decode("utf-8")
+        r.check("C05.17", text == want and all(isinstance(o, str) for o in outs), key, f.where,
+                "%s.read over the byte reads %r returns %r: an empty string before the source is exhausted is taken for the end of the input by "
+                "readChunk (the document is truncated at a character that a socket happened to split)" % (cls.name, pieces, outs),
+                {"reads": [repr(p_) for p_ in pieces]}, detail={"returned": outs})
 
 
 def publish_rules(ctx):
